@@ -87,3 +87,54 @@ class Cfg:
         if self.re: f += ['-z', self.re]
         if self.encrypt: f += ['-y', '-q', keyfile]
         return f
+
+# ---- tables for the abstract components of the model (regexp, encryption) ----
+from vlib import jtree as _jt
+
+def all_names_and_strings(lines):
+    """all object keys and all string leaves (also with one leading '$' removed) of the parseable lines"""
+    names, strings = set(), set()
+    def walk(t):
+        k = _jt.kind(t)
+        if k == 'obj':
+            for key, v in t:
+                names.add(key); walk(v)
+        elif k == 'arr':
+            for v in t: walk(v)
+        elif k == 'str':
+            strings.add(t)
+    for l in lines:
+        t = _jt.parse(l)
+        if t is not None: walk(t)
+    return names, strings
+
+def re_table(regex, lines):
+    names, strings = all_names_and_strings(lines)
+    cand = set(names) | set(strings) | {s[1:] for s in strings if s.startswith('$')}
+    cand = sorted(cand)
+    res = run_harness([{"op": "rematch", "re": regex, "names": [b64(n) for n in cand]}])[0]
+    return {n.encode('utf-8'): v for n, v in zip(cand, res['m'])}
+
+def enc_table(key, lines):
+    _, strings = all_names_and_strings(lines)
+    ss = sorted(strings)
+    res = run_harness([{"op": "enc", "s": b64(s), "key": b64(key)} for s in ss]) if ss else []
+    out = {}
+    for s, r in zip(ss, res):
+        out[s.encode('utf-8')] = base64.b64encode(unb64(r['ct'])) if 'ct' in r else None
+    return out
+
+def run_lines(cfg, lines):
+    """run both sides on the lines under cfg; returns list of (impl, model) with impl/model = bytes | 'SKIP' | 'PANIC:..' | 'TABLEMISS'"""
+    hr = run_harness([cfg.harness_req()] + [{"op": "line", "s": b64(l)} for l in lines])[1:]
+    rt = re_table(cfg.re, lines) if cfg.re else None
+    et = enc_table(cfg.key, lines) if (cfg.encrypt and cfg.key is not None) else None
+    dr = run_driver([cfg.driver_line(rt, et)] + ['LINE ' + hx(l) for l in lines])[1:]
+    out = []
+    for h, d in zip(hr, dr):
+        io = unb64(h['o']) if h['r'] == 'out' else ('SKIP' if h['r'] == 'skip' else 'PANIC:' + h.get('m', ''))
+        if 'TABLEMISS' in d: mo = 'TABLEMISS'
+        elif d.startswith('OUT'): mo = unhx(d.split()[1])
+        else: mo = 'SKIP'
+        out.append((io, mo))
+    return out
